@@ -81,14 +81,22 @@ structure St where
   wg : Nat := 0
   failed : Nat := 0
   ctxDone : Bool
-  -- ghost logs (never read by the steps)
+  -- ghost logs and snapshots (never read by the steps, except to keep a snapshot once taken)
   mapped : List Nat := []       -- items handed to a mapper
   dropped : List Nat := []      -- items taken from source by a drain
   sent : List Nat := []         -- values accepted by the collector
   reduced : List Nat := []      -- values received by the reducer function
   drained : List Nat := []      -- values received by the reducer goroutine's deferred drain
+  wSnap : Option Bool := none   -- at the reducer's FIRST Write (its guard): was an error recorded / the context over?
+  eSnap : Option Bool := none   -- at the end of the reducer function: was an error recorded?
 
 def init (c : Cfg) : St := { rpc := .run c.rscript, ctxDone := c.ctxPre }
+
+/-- a ghost snapshot is taken once. -/
+def snapOnce (o : Option Bool) (b : Bool) : Option Bool :=
+  match o with
+  | none => some b
+  | some x => some x
 
 def upd (f : Nat → MPc) (i : Nat) (x : MPc) : Nat → MPc := fun j => if j = i then x else f j
 
@@ -178,7 +186,7 @@ def stepMapper (c : Cfg) (s : St) (i : Nat) : Option St :=
 
 def stepRed (c : Cfg) (s : St) : Option St :=
   match s.rpc with
-  | .run [] => some { s with rpc := .drain none }
+  | .run [] => some { s with rpc := .drain none, eSnap := snapOnce s.eSnap s.retErr.isSome }
   | .run (.readOne :: sc) =>
     match s.collQ with
     | v :: q => some { s with collQ := q, reduced := s.reduced ++ [v], rpc := .run sc }
@@ -188,14 +196,15 @@ def stepRed (c : Cfg) (s : St) : Option St :=
     | v :: q => some { s with collQ := q, reduced := s.reduced ++ [v] }
     | [] => if s.collClosed then some { s with rpc := .run sc } else none
   | .run (.write v :: sc) =>
-    if s.ctxDone || s.fin then some { s with rpc := .run sc } else some { s with rpc := .send v sc }
+    if s.ctxDone || s.fin then some { s with rpc := .run sc, wSnap := snapOnce s.wSnap (s.retErr.isSome || s.ctxDone) }
+    else some { s with rpc := .send v sc, wSnap := snapOnce s.wSnap (s.retErr.isSome || s.ctxDone) }
   | .run (.cancel e :: sc) =>
     if s.once = 0 then some { s with once := 1, retErr := some (cancelErr e), rpc := .cdrain sc }
     else if s.once = 1 then none
     else some { s with rpc := .run sc }
-  | .run (.panic :: _) => some { s with rpc := .drain (some .reducer) }
+  | .run (.panic :: _) => some { s with rpc := .drain (some .reducer), eSnap := snapOnce s.eSnap s.retErr.isSome }
   | .send v sc =>
-    if s.fin then some { s with rpc := .drain (some .sendClosed) }      -- send on closed channel
+    if s.fin then some { s with rpc := .drain (some .sendClosed), eSnap := snapOnce s.eSnap s.retErr.isSome }      -- send on closed channel
     else match s.cpc with
       | .sel => some { s with cpc := .defer (match s.retErr with | some e => .err e | none => .val v), rpc := .run sc }
       | .drainOut _ => some { s with rpc := .run sc }
